@@ -542,6 +542,10 @@ func (e *linEnv) condFacts(cond ssa.Value, truth bool) []Fact {
 			if x.isConst() && x.C == 0 && nonNegValue(c.Y) {
 				return []Fact{{linConst(1).add(y, -1), src}}
 			}
+			// r != -1 for r := bytes.IndexByte(...) (whose result is >= -1) gives r >= 0
+			if y.isConst() && y.C == -1 && isIndexByteCall(c.X) {
+				return []Fact{{x.scale(-1), src + " (IndexByte result >= -1)"}}
+			}
 		}
 	}
 	return nil
@@ -595,6 +599,15 @@ func entails(facts []Fact, goal Lin) (bool, string) {
 		}
 	}
 	return false, ""
+}
+
+func isIndexByteCall(v ssa.Value) bool {
+	call, ok := v.(*ssa.Call)
+	if !ok {
+		return false
+	}
+	cal := call.Call.StaticCallee()
+	return cal != nil && cal.Pkg != nil && cal.Pkg.Pkg.Path() == "bytes" && cal.Name() == "IndexByte"
 }
 
 // nonNegValue: lengths and unsigned integers are >= 0.
